@@ -15,6 +15,7 @@ var Schemas = []string{
 	`{"type":"null"}`, `{"type":"boolean"}`, `{"type":"integer"}`, `{"type":"number"}`, `{"type":"string"}`, `{"type":"array"}`, `{"type":"object"}`, `{"type":["integer","null"]}`, `{"type":["number","string"]}`,
 	`{"enum":[1,"a",null]}`, `{"enum":[[1],{"a":1}]}`, `{"enum":[1.5,256,true]}`, `{"const":1}`, `{"const":[1,2]}`, `{"const":{"a":1,"b":2}}`, `{"const":null}`, `{"const":"a"}`, `{"const":9223372036854775808}`, `{"const":9007199254740992}`, `{"const":{"a":[1]}}`,
 	`{"minimum":1}`, `{"maximum":1}`, `{"exclusiveMinimum":1}`, `{"exclusiveMaximum":256}`, `{"minimum":9007199254740992}`, `{"maximum":9007199254740992}`, `{"maximum":9223372036854775808}`, `{"exclusiveMaximum":9223372036854775808}`, `{"minimum":-9223372036854775808}`, `{"multipleOf":2}`, `{"multipleOf":0.5}`,
+	`{"multipleOf":2,"minimum":5}`, `{"multipleOf":2,"maximum":5}`, `{"multipleOf":4,"exclusiveMinimum":2,"exclusiveMaximum":100}`, `{"multipleOf":1,"minimum":1,"maximum":255}`, `{"multipleOf":0.5,"exclusiveMaximum":2}`, `{"items":{"multipleOf":2,"minimum":5}}`,
 	`{"minLength":1}`, `{"maxLength":1}`, `{"pattern":"^a"}`, `{"pattern":"^[0-9]+$"}`, `{"maxLength":0}`,
 	`{"items":{"type":"integer"}}`, `{"items":{"maximum":1}}`, `{"prefixItems":[{"type":"integer"},{"type":"string"}]}`, `{"prefixItems":[{"const":1}],"items":false}`, `{"contains":{"const":1}}`, `{"contains":{"type":"string"},"minContains":1,"maxContains":1}`, `{"uniqueItems":true}`, `{"minItems":1}`, `{"maxItems":1}`, `{"items":{"items":{"type":"integer"}}}`, `{"unevaluatedItems":false,"prefixItems":[true]}`,
 	`{"properties":{"a":{"type":"integer"}}}`, `{"properties":{"a":{"const":1}},"required":["a"]}`, `{"patternProperties":{"^a":{"type":"integer"}}}`, `{"additionalProperties":false,"properties":{"a":true}}`, `{"additionalProperties":{"type":"integer"}}`, `{"propertyNames":{"maxLength":1}}`, `{"required":["a"]}`, `{"required":["a","b"]}`, `{"minProperties":1}`, `{"maxProperties":1}`, `{"dependentRequired":{"a":["b"]}}`, `{"dependentSchemas":{"a":{"required":["b"]}}}`, `{"unevaluatedProperties":false,"properties":{"a":true}}`, `{"properties":{"a":{"properties":{"b":{"type":"integer"}}}}}`, `{"properties":{"a":{"items":{"type":"integer"}}}}`,
@@ -25,9 +26,9 @@ var Schemas = []string{
 
 // Values: exact in float64 (the canonical decoding must carry the same value).
 var Values = []string{
-	`null`, `true`, `false`, `0`, `1`, `-1`, `1.5`, `0.5`, `2`, `255`, `256`, `9007199254740992`, `9223372036854775808`, `-9223372036854775808`, `18446744073709551616`,
+	`null`, `true`, `false`, `0`, `1`, `-1`, `1.5`, `0.5`, `2`, `4`, `6`, `8`, `255`, `256`, `9007199254740992`, `9223372036854775808`, `-9223372036854775808`, `18446744073709551616`,
 	`""`, `"a"`, `"ab"`, "\"é\"", `"12"`, `"1"`, `"1.5"`, `12`, `["1"]`, `{"a":"1"}`,
-	`[]`, `[1]`, `[1,2]`, `[1,"a"]`, `[1,1]`, `[[1]]`, `[1,1.5]`, `["a","a"]`, `[null]`, `[{"a":1}]`, `[256,256]`, `[65536,65536]`, `[9223372036854775808,9223372036854775808]`, `[-9223372036854775808,-9223372036854775808]`, `[1.5,1.5]`, `[0,0]`, `[{"a":1},{"a":1}]`, `[[256],[256]]`, `[[1,2],[1,3]]`, `[[1,2],[1,2]]`, `[null,null]`, `[null,1]`,
+	`[]`, `[1]`, `[1,2]`, `[1,"a"]`, `[1,1]`, `[[1]]`, `[1,1.5]`, `[8,6]`, `[4]`, `["a","a"]`, `[null]`, `[{"a":1}]`, `[256,256]`, `[65536,65536]`, `[9223372036854775808,9223372036854775808]`, `[-9223372036854775808,-9223372036854775808]`, `[1.5,1.5]`, `[0,0]`, `[{"a":1},{"a":1}]`, `[[256],[256]]`, `[[1,2],[1,3]]`, `[[1,2],[1,2]]`, `[null,null]`, `[null,1]`,
 	`{}`, `{"a":1}`, `{"a":1,"b":2}`, `{"a":"x"}`, `{"a":[1]}`, `{"a":{"b":1}}`, `{"ab":1}`, `{"b":1}`, `{"a":null}`, `{"a":1.5}`,
 }
 
